@@ -1,5 +1,5 @@
-(** Witnesses for the identity lookup: a hierarchy that branches and is two levels deep, the known
-    finding k=5 (the base itself is accepted), the hypotheses of the lookup theorems are met. *)
+(** Witnesses for the identity lookup: a hierarchy that branches and is two levels deep, the name
+    of the base itself (rejected as a value since repair 873d214), the hypotheses of the lookup theorems are met. *)
 From Coq Require Import ZArith List Bool Strings.Byte Strings.String Lia.
 From YV Require Import Base.Verdict Typed.Model Typed.Spec Typed.Proofs Typed.FindId Typed.FindIdProofs
   Typed.Examples Check.C02Check.
@@ -31,7 +31,7 @@ Lemma lookup_tr :
   /\ find_identity (find_fuel mods_tr) mods_tr [i_tr "transport"] (T "tls") = Found (i_tr "tls")
   /\ find_identity (find_fuel mods_tr) mods_tr [i_tr "transport"] (T "other") = NotFound
   /\ find_identity (find_fuel mods_tr) mods_tr [i_tr "tcp"] (T "dtls") = NotFound
-  /\ ident_value (find_fuel mods_tr) mods_tr [i_tr "transport"] (T "m:dtls") = Some (Some (T "dtls")).
+  /\ ident_value (value_fuel mods_tr) mods_tr [i_tr "transport"] (T "m:dtls") = Some (Some (T "dtls")).
 Proof. repeat split; vm_compute; reflexivity. Qed.
 
 (** every hypothesis of the lookup theorems is met by this hierarchy, and the model's answers for
@@ -78,18 +78,39 @@ Qed.
 Lemma rank_tr_bound : forall c, In c [i_tr "transport"] -> (rank_tr c < find_fuel mods_tr)%nat.
 Proof. intros c [<-|[]]. vm_compute. lia. Qed.
 
-(** k=5: the name of the base itself is found, RFC 7950 9.10.2 does not accept it *)
-Lemma kf_base_itself_refuted :
+(** the name of the base itself: the helper FindIdentity, handed the bases as candidates, answers
+    with the base (its contract); node.NewValue rejects it as RFC 7950 9.10.2 requires, and did not
+    before repair 873d214 *)
+Lemma base_itself_rejected :
   find_identity (find_fuel mods_tr) mods_tr [i_tr "transport"] (T "transport") = Found (i_tr "transport")
   /\ ~ In (i_tr "transport") (accepted_inter mods_tr [i_tr "transport"])
-  /\ known_find E_tr l_tr (model_probes E_tr l_tr [T "transport"]) = Some 5%nat
+  /\ ident_value (value_fuel mods_tr) mods_tr [i_tr "transport"] (T "transport") = Some None
+  /\ ident_value_old (find_fuel mods_tr) mods_tr [i_tr "transport"] (T "transport") = Some (Some (T "transport"))
+  /\ known_find E_tr l_tr (model_probes E_tr l_tr [T "transport"]) = None
   /\ corr_find E_tr l_tr (model_probes E_tr l_tr [T "transport"]) = true
-  /\ find_meets_spec E_tr l_tr [T "transport"] = false.
+  /\ find_meets_spec E_tr l_tr [T "transport"; T "m:transport"] = true.
 Proof.
   split; [vm_compute; reflexivity|]. split.
   - vm_compute. intuition discriminate.
   - repeat split; vm_compute; reflexivity.
 Qed.
+
+(** the code before the repair fails the oracle on that text *)
+Definition old_probes (E : env) (l : leaf) (texts : list text) : list (text * pobs) :=
+  match model_bases E l with
+  | Some ids => map (fun x => (x, match find_identity (find_fuel (e_mods E)) (e_mods E) ids x,
+                                        ident_value_old (find_fuel (e_mods E)) (e_mods E) ids x with
+                                  | Found j, Some v => PObs (Some j) v
+                                  | NotFound, Some v => PObs None v
+                                  | _, _ => PPanic
+                                  end)) texts
+  | None => []
+  end.
+Lemma value_old_refuted :
+  spec_find E_tr l_tr (old_probes E_tr l_tr [T "transport"]) = false
+  /\ corr_find E_tr l_tr (old_probes E_tr l_tr [T "transport"]) = false
+  /\ spec_find E_tr l_tr (old_probes E_tr l_tr [T "tcp"; T "m:dtls"; T "other"]) = true.
+Proof. repeat split; vm_compute; reflexivity. Qed.
 
 Lemma accept_full_refuted :
   ~ (forall mods ids t,
